@@ -27,8 +27,8 @@ C7 = ['set', 'NT', 'R3', 'RD', 'CR', 'MD', 'MS', 'GC', 'PA', 'MO', 'XS']
 CONFIGS = {
     # quick: every ordered pair of shapes (root with <= 2 kids: sharing; second object with <= 1 kid: back edge),
     # every leaf kind under every shape, chains of three objects with back edges over two 7-shape families
-    'pairsAB': dict(MaxObjs=2, Shapes=A7 + B7, Leaves=['i'], KidsRoot=2, KidsRest=1),
-    'pairsC':  dict(MaxObjs=2, Shapes=C7 + ['list', 'GS'], Leaves=['i'], KidsRoot=2, KidsRest=1),
+    'pairsAB': dict(MaxObjs=2, Shapes=[x for x in A7 + B7 if x not in ('tuple', 'S')], Leaves=['i'], KidsRoot=2, KidsRest=1),
+    'pairsC':  dict(MaxObjs=2, Shapes=C7 + ['list'], Leaves=['i'], KidsRoot=2, KidsRest=1),
     # attribute names: every naming scheme under every shape that has named attributes (dict state, slot state, state
     # next to arguments / listitems / dictitems), with a second object below
     'names':   dict(MaxObjs=1, Shapes=['P', 'PA', 'S', 'SD', 'GS', 'NA', 'R3', 'RL', 'ML', 'MD', 'MS', 'MO', 'XS'], Leaves=['i', 'f'],
@@ -62,7 +62,7 @@ CONFIGS = {
 TIERS = {'quick': ['pairsAB', 'pairsC', 'names', 'triL', 'leaves', 'chainA5', 'chainB5'],
          'thorough': ['pairs22', 'pairs_l', 'leaves2', 'names1', 'names2', 'triL', 'triL2', 'chainA', 'chainB', 'chainC', 'tri_a', 'tri_b', 'tri_c', 'tri_d', 'tri_e',
                       'tri_a2', 'tri_b2', 'quad_a', 'quad_b']}
-RANDOM = {'quick': 400, 'thorough': 12000}
+RANDOM = {'quick': 300, 'thorough': 12000}
 WORKERS = int(os.environ.get('VERIF_TLC_WORKERS', '16'))
 
 
@@ -464,7 +464,7 @@ def main(tier, replay=None):
         return v.finish()
     per_config, allrecs = {}, []
     from concurrent.futures import ThreadPoolExecutor
-    par = 1 if tier == 'thorough' else min(6, len(TIERS[tier]))        # the quick configurations are small: run TLC on all at once
+    par = 1 if tier == 'thorough' else min(8, len(TIERS[tier]))        # the quick configurations are small: run TLC on all at once
 
     def mc(name):
         return tlc.run('Reduce', cfg='MC_Reduce.cfg', dump=True, tag='C17_' + name, timeout=3000, coverage=False,
